@@ -351,12 +351,26 @@ func serveOp(f []string) string {
 func replayServe(c *ctx, ops []string) {
 	for _, op := range ops {
 		f := strings.Fields(op)
-		res := watchdog(30*time.Second, func() string { return guard(func() string { return serveOp(f) }) })
+		res := watchdog(30*time.Second, func() string {
+			return guard(func() string {
+				if f[0] == "svstart" {
+					return startOp(f)
+				}
+				return serveOp(f)
+			})
+		})
 		c.emit(op, res)
 	}
 }
 
 func genServe(c *ctx) {
+	// the whole server through server.Start first: both sections with an empty chain, a chain that is empty after the
+	// protocol filter, one pass-through plugin; then one section alone
+	for _, op := range []string{"svstart 46 empty", "svstart 46 other", "svstart 46 dns", "svstart 6 empty", "svstart 4 other"} {
+		if c.count < c.n {
+			replayServe(c, []string{op})
+		}
+	}
 	for c.count < c.n {
 		proto := []string{"sv6", "sv6", "sv4"}[c.rng.Intn(3)]
 		k := []int{2, 6, 12, 24}[c.rng.Intn(4)]
